@@ -56,6 +56,9 @@ type c11aOp struct {
 	Fault   string `json:"fault,omitempty"` // "" | deadline | canceled | other
 	Wraps   int    `json:"wraps,omitempty"` // how often the store wraps the context error with %w (RegisterRevocation wraps once more)
 	ID      string `json:"id,omitempty"`
+	// areprocess: content type of the re-processed transaction ("" in the op = private transaction without payload)
+	CT        string `json:"ct,omitempty"`
+	NoPayload bool   `json:"nopayload,omitempty"`
 }
 
 const (
@@ -191,6 +194,23 @@ func (w *c11aWorld) exec(op c11aOp) (line string) {
 			return "adeliver retry"
 		}
 		return fmt.Sprintf("adeliver odd:%v:%v", finished, err)
+	case "areprocess":
+		// the part of handleReprocessEvent after Ack + Unmarshal (a *nats.Msg cannot be acknowledged without a server):
+		// `if len(twp.Payload) != 0 { callback := n.getCallbackFn(twp.Transaction.PayloadType()); callback(tx, payload) }`
+		payload, err := w.signedRevocation(op)
+		if err != nil {
+			return "areprocess err:build:" + err.Error()
+		}
+		if op.NoPayload {
+			payload = nil
+		}
+		w.store.fault, w.store.wraps = op.Fault, op.Wraps
+		failed := false
+		if len(payload) != 0 {
+			failed = w.amb.getCallbackFn(op.CT)(w.tx, payload) != nil
+		}
+		w.store.fault = ""
+		return fmt.Sprintf("areprocess failed=%v", failed)
 	case "awire":
 		// the real Configure(): which subscriptions it makes, what their filters let through and where the events end up
 		ctrl := gomock.NewController(w.t)
@@ -340,6 +360,24 @@ func TestVerifC11a(t *testing.T) {
 			prefix := []string{c11aA, c11aB}[rng.Intn(2)]
 			id := fmt.Sprintf("%s#%d", prefix, rng.Intn(3))
 			if rng.Intn(3) == 0 {
+				run(c11aOp{Op: "averify", Sc: sc, ID: id})
+				continue
+			}
+			if rng.Intn(5) == 0 { // operator-triggered REPROCESS of a (mostly revocation) transaction, then verify
+				rp := c11aOp{Op: "areprocess", Sc: sc, Subject: id, Issuer: prefix, CT: types.RevocationLDDocumentType}
+				switch rng.Intn(10) {
+				case 0:
+					rp.CT = "application/other+json"
+				case 1:
+					rp.CT = "application/ld+json"
+				case 2:
+					rp.NoPayload = true
+				case 3:
+					rp.Fault, rp.Wraps = []string{"deadline", "canceled", "other"}[rng.Intn(3)], rng.Intn(3)
+				case 4:
+					rp.Issuer = map[string]string{c11aA: c11aB, c11aB: c11aA}[prefix]
+				}
+				run(rp)
 				run(c11aOp{Op: "averify", Sc: sc, ID: id})
 				continue
 			}
